@@ -64,8 +64,9 @@ type PropProblem struct {
 // CheckErrPropagated decides, over all CFG paths from the call to an exit of its function, that the
 // call's error result reaches the function's own error result:
 //   - on a path where the error was tested non-nil, the return's error slot is that error (or wraps it);
-//   - on a path where it was never tested, the return's error slot is that error, or a non-nil error chosen
-//     by a test on another result of the same call;
+//   - on a path where it was never tested, the return's error slot is that error, or a freshly made opaque failure
+//     (fmt.Errorf / errors.New — never a typed or sentinel error a caller could read as not-found / EOF) chosen by a
+//     test on another result of the same call;
 //   - nothing is required where it was tested nil.
 //
 // noErrResult is true when the enclosing function has no error result (caller decides about exemptions).
@@ -156,7 +157,7 @@ func CheckErrPropagated(fn *ssa.Function, call ssa.CallInstruction) (problems []
 					if aliases[slot] {
 						return
 					}
-					if state == "untested" && !IsNilConst(slot) && lastOnSameCall {
+					if state == "untested" && lastOnSameCall && isOpaqueFailure(slot) {
 						return
 					}
 					what := ""
@@ -218,4 +219,11 @@ func ImplementsMethodOf(fn *ssa.Function, iface *types.Interface) bool {
 		}
 	}
 	return false
+}
+
+// isOpaqueFailure: the error value is made on the spot by fmt.Errorf or errors.New (it cannot be mistaken for a
+// not-found / end-of-data verdict by the caller).
+func isOpaqueFailure(v ssa.Value) bool {
+	c, ok := v.(*ssa.Call)
+	return ok && (IsCallTo(c, "fmt", "Errorf") || IsCallTo(c, "errors", "New"))
 }
